@@ -89,11 +89,12 @@ pub fn run(id: &str, tier: &str, seed: u64, threads: usize) -> Json {
     // panics are expected to be *caught* here; keep stderr quiet
     std::panic::set_hook(Box::new(|_| {}));
     let thorough = tier == "thorough";
+    let miri = tier == "miri";
     match id {
-        "C10" => c10(thorough, seed, threads),
-        "C11" => c11(thorough, seed, threads),
+        "C10" => c10(thorough, miri, seed, threads),
+        "C11" => c11(thorough, miri, seed, threads),
         "C17" => crate::pure_config::c17(thorough, seed, threads),
-        "C18" => crate::pure_window::c18(thorough, seed, threads),
+        "C18" => crate::pure_window::c18(thorough, miri, seed, threads),
         _ => Json::obj().set("error", Json::s("unknown property")),
     }
 }
@@ -241,9 +242,12 @@ fn grammar_packets(rng: &mut Rng) -> Vec<Vec<u8>> {
     v
 }
 
-fn c10(thorough: bool, seed: u64, threads: usize) -> Json {
-    let max_tail = if thorough { 6 } else { 5 };
-    let nrandom: u64 = if thorough { 10_000_000 } else { 200_000 };
+fn c10(thorough: bool, miri: bool, seed: u64, threads: usize) -> Json {
+    let max_tail = if miri { 2 } else if thorough { 6 } else { 5 };
+    let nrandom: u64 = if miri { 400 } else if thorough { 10_000_000 } else { 2_000_000 };
+    let nprefix: usize = if miri { 64 } else { 65536 };
+    let bytes_upto: usize = if miri { 4 } else { 256 };
+    let grammar_stride: usize = if miri { 97 } else { 1 };
     let work = Arc::new(move |shard: usize, nshards: usize, rep: &mut PureReport| {
         // (1) every opcode word 0..7 x all tails of length <= max_tail over the 16-symbol alphabet
         let mut counter = 0usize;
@@ -270,15 +274,15 @@ fn c10(thorough: bool, seed: u64, threads: usize) -> Json {
         if shard == 0 {
             judge_datagram(&[], rep, "bytes-exhaustive");
         }
-        for a in 0..256usize {
+        for a in 0..bytes_upto {
             if a % nshards != shard {
                 continue;
             }
             judge_datagram(&[a as u8], rep, "bytes-exhaustive");
-            for b in 0..256usize {
+            for b in 0..bytes_upto {
                 judge_datagram(&[a as u8, b as u8], rep, "bytes-exhaustive");
                 if a < 8 {
-                    for c in 0..256usize {
+                    for c in 0..bytes_upto {
                         judge_datagram(&[a as u8, b as u8, c as u8], rep, "bytes-exhaustive");
                     }
                 }
@@ -291,7 +295,7 @@ fn c10(thorough: bool, seed: u64, threads: usize) -> Json {
             let n = rng.range(1, 12) as usize;
             tails.push((0..n).map(|_| *rng.pick(&ALPHABET)).collect());
         }
-        for pre in 0..65536usize {
+        for pre in 0..nprefix {
             if pre % nshards != shard {
                 continue;
             }
@@ -305,7 +309,7 @@ fn c10(thorough: bool, seed: u64, threads: usize) -> Json {
         let mut grng = Rng::new(seed ^ 0x6A);
         let packets = grammar_packets(&mut grng);
         for (i, p) in packets.iter().enumerate() {
-            if i % nshards != shard {
+            if i % nshards != shard || i % grammar_stride != 0 {
                 continue;
             }
             judge_datagram(p, rep, "grammar");
@@ -429,12 +433,13 @@ fn gen_packet(r: &mut Rng) -> (Packet, RPacket) {
     (p, rp)
 }
 
-fn c11(thorough: bool, seed: u64, threads: usize) -> Json {
-    let n: u64 = if thorough { 10_000_000 } else { 200_000 };
+fn c11(thorough: bool, miri: bool, seed: u64, threads: usize) -> Json {
+    let n: u64 = if miri { 600 } else if thorough { 10_000_000 } else { 200_000 };
+    let enum_upto: u16 = if miri { 300 } else { 65535 };
     let work = Arc::new(move |shard: usize, nshards: usize, rep: &mut PureReport| {
         if shard == 0 {
             // enum conversions, exhaustive over u16
-            for v in 0..=65535u16 {
+            for v in 0..=enum_upto {
                 rep.evaluations += 2;
                 let o = catch_unwind(|| Opcode::from_u16(v));
                 match o {
